@@ -76,10 +76,18 @@ PROPS = {
     "C14": {"id": "C14", "source": "c14.cpp", "files": ["include/avel/impl/denominators/Denominator%s.hpp" % s for s in ("8u", "8i", "16u", "16i", "32u", "32i", "64u", "64i")] + ["include/avel/impl/scalars/Scalars.hpp"],
             "min_configs": {"quick": 8, "thorough": 30}, "configs": cfgs_scalar_sets, "optional_classes": ["distinct_divisors_in_lanes", "broadcast_from_scalar_denominator"], "max_success": {"quick": 3000, "thorough": 50000}},
     "C15": {"id": "C15", "source": "c14.cpp", "cxxflags": ["-DVP_PROP_C15"], "files": [f.replace("vectors/Vec", "denominator_vectors/Denominator") for f in INT_VEC_FILES], "min_configs": {"quick": 8, "thorough": 30}},
+    "C16": {"id": "C16", "source": "c16.cpp", "files": SCALAR_FILES + [VEC + "Vec1x%s.hpp" % s for s in ("8u", "8i", "16u", "16i", "32u", "32i", "64u", "64i", "32f", "64f")],
+            "min_configs": {"quick": 8, "thorough": 30}, "configs": cfgs_scalar_sets, "cxxflags": ["-frounding-math", "-ffp-contract=off"], "ref_sources": FPREF,
+            "optional_classes": ["scalar_and_vector_differ_only_in_zero_sign"]},
     "C02": {"id": "C02", "source": "c02.cpp", "files": INT_VEC_FILES + FLT_VEC_FILES, "min_configs": {"quick": 8, "thorough": 30}, "digest_binding": True},
 }
 
 MANIFEST_TEXT = {
+    "C16": {
+        "technique": "differential property-based testing: for every function that has both a scalar overload and a vector form, the scalar result of each lane's input is compared with that lane of the vector result (heterogeneous neighbours, every width present), over exhaustive 8/16-bit inputs, strided/exhaustive 32-bit inputs, lattices + rapidcheck; mixed-sign cmp_* against an __int128 oracle",
+        "level": "Generated-input search over 60 functions (bit functions, rotl/rotr, min/max/clamp, abs/neg_abs/negate, average/midpoint, keep/clear/blend, ceil..rint, sqrt, logb, frac, fmax/fmin/fdim/copysign, frexp/ldexp/scalbn, ilogb/fpclassify, isnan..signbit, isgreater..isunordered) x all 40 vector types x configurations = arm cover + scalar ladders {none,X86,POPCNT,LZCNT,BMI,BMI2} x {g++,clang++} x {-O1,-O2}; which side is wrong is decided by the independent oracles of C06/C07/C11-C13; cmp_equal/.../cmp_greater_equal for (signed, unsigned) and (unsigned, signed) operands of all four widths compare the mathematical values.",
+        "note": "Trusted: host CPU, compilers; the oracle-free differential cannot see a defect shared by both sides (C06/C07/C11-C13 cover that). Not compared (outside the documented domain or owned elsewhere): signed bit_floor/bit_ceil of negatives, clamp with lo == hi or a NaN operand, float min/max with NaN, fmax/fmin with a signalling NaN, ldexp/scalbn outside the region where C12 has no known finding; float results differing only in the sign of zero are counted, not flagged.",
+    },
     "C14": {
         "technique": "property-based testing: exhaustive 8-bit (quick) / 16-bit (thorough) (n, d) pairs, per-divisor boundary numerators (multiples of d nearest the range ends +-1) over the divisor lattice + rapidcheck, __int128 division oracle + q*d+r==n, SIGFPE guard; libFuzzer target in the thorough tier",
         "level": "Generated-input search over (n, d), d != 0, for the eight scalar Denominator<T> types and the forms div, /, %, /=, %=, value() in every configuration incl. the scalar instruction-set ladders (none/X86/POPCNT/LZCNT/BMI/BMI2 x g++/clang++ x -O1/-O2): d from {+-1, +-2^k, +-(2^k+-1), MAX, MIN, random}, n from {0, +-1, MIN, MAX, k*d and k*d+-1 at both range ends, random}; construction and use run under the signal guard.",
